@@ -110,13 +110,22 @@ def units(tier):
             continue
         runs.append(dict(solver='AndersonCD', datafit=df, penalty=pen, X='corr32', max_iter=1, max_epochs=1, p0=1,
                          fit_intercept=fi, ws_strategy=strat, warm=True, sparse=sparse))
+    # accepted extrapolation with a working set smaller than the warm-start support candidates (p0=1): the
+    # coefficients outside the working set must not be lost (contract stub fires at the first epoch)
+    for pen, fi in ((('L1', False), ('L1', True)) if q else
+                    [(pen, fi) for pen in ('L1', 'WeightedL1', 'L1_plus_L2', 'MCPenalty') for fi in (False, True)]):
+        runs.append(dict(solver='AndersonCD', datafit='Quadratic', penalty=pen, X='corr32', max_iter=1, max_epochs=1,
+                         max_epochs_unpatched=7, acc_stub=1, p0=1, fit_intercept=fi, ws_strategy='subdiff', warm=True))
     if not q:
         runs.append(dict(solver='ProxNewton', datafit='Quadratic', penalty='L1', X='corr32', max_iter=1, max_pn_iter=1, p0=2,
                          fit_intercept=False, ws_strategy='subdiff', warm=True))
     for c in runs:
         cid = ','.join('%s=%s' % (k, c[k]) for k in sorted(c))
         us.append(Unit('C05/D/run[%s]' % cid, ST.u_run, dict(cfg=c, want=('buffer',)), wall_s=120, max_paths=4000,
-                       timeout_ms=8000, patched=c['solver'] == 'ProxNewton'))
+                       timeout_ms=8000, patched=c['solver'] == 'ProxNewton' or bool(c.get('acc_stub'))))
+    c2 = dict(solver='AndersonCD', datafit='Quadratic', penalty='L1', X='corr33', max_iter=2, max_epochs=1, max_epochs_unpatched=7, acc_stub=1, p0=1, fit_intercept=False, ws_strategy='subdiff', warm=True, w0_concrete=[2.0, 0.0, 0.0], ylabels=[1.0, -2.0, 3.0], acc_catalogue=[1.0, -0.5, 0.0], two_iter=True)
+    us.append(Unit('C05/D/two-iterations[%s]' % ','.join('%s=%s' % (k, c2[k]) for k in sorted(c2)), ST.u_run,
+                   dict(cfg=c2, want=('buffer', 'history')), wall_s=200, max_paths=6000, timeout_ms=8000, patched=True))
     for pen, fi, wi, sp in itertools.product(['L1', 'WeightedL1'], (False, True), (False, True), (False, True)):
         if q and dh((pen, fi, wi, sp)) % 2:
             continue
